@@ -51,12 +51,58 @@ inductive Val (ν : Type)
   | nat (n : Nat)          -- decimal digits: parses as f32 and (when < 256) as u8
 deriving DecidableEq, Repr
 
-/-- text content of a `<binary>` element -/
+/-- text content of a `<binary>` element, as base64 0.13 `decode` (standard alphabet — the call the reader
+makes) understands it; `b64decode` below is that understanding, executable:
+* padding is OPTIONAL: `QUI=`, `QUI` both give `AB`; partial padding (`QQ=`) is accepted too;
+* a length ≡ 1 (mod 4) after removing the padding, non-zero trailing bits (`QUJ`), `=` anywhere but
+  at the end or more of it than completes the quad, white space, line breaks and every other
+  character outside the alphabet are errors;
+* a non-empty text never decodes to zero bytes. -/
 inductive Payload
-  | empty                                         -- `<binary></binary>`
-  | badB64                                        -- not base64
-  | data (wire : List UInt8) (inflated : Option (List UInt8))   -- base64 of `wire`; `inflated` = zlib⁻¹ wire if defined
+  | empty                                         -- `<binary></binary>`: no text at all
+  | badB64                                        -- non-empty text that `decode` rejects
+  | data (wire : List UInt8) (inflated : Option (List UInt8))   -- text that decodes to `wire`; `inflated` = zlib⁻¹ wire if defined
 deriving DecidableEq, Repr
+
+/-- value of a base64 alphabet character -/
+def b64Val (c : UInt8) : Option Nat :=
+  let n := c.toNat
+  if 65 ≤ n ∧ n ≤ 90 then some (n - 65)
+  else if 97 ≤ n ∧ n ≤ 122 then some (n - 97 + 26)
+  else if 48 ≤ n ∧ n ≤ 57 then some (n - 48 + 52)
+  else if n = 43 then some 62
+  else if n = 47 then some 63
+  else none
+
+/-- sextets to bytes; a final group of two / three sextets must not carry stray bits -/
+def b64Groups : List Nat → Option (List UInt8)
+  | [] => some []
+  | [_] => none
+  | [a, b] => if b % 16 == 0 then some [(a * 4 + b / 16).toUInt8] else none
+  | [a, b, c] => if c % 4 == 0 then some [(a * 4 + b / 16).toUInt8, ((b % 16) * 16 + c / 4).toUInt8] else none
+  | a :: b :: c :: d :: rest =>
+    match b64Groups rest with
+    | some t => some ((a * 4 + b / 16).toUInt8 :: ((b % 16) * 16 + c / 4).toUInt8 :: ((c % 4) * 64 + d).toUInt8 :: t)
+    | none => none
+
+/-- `base64::decode(text)` of base64 0.13 (`None` = `DecodeError`) -/
+def b64decode (text : List UInt8) : Option (List UInt8) :=
+  let k := (text.reverse.takeWhile (fun c => c == 61)).length      -- trailing `=`
+  let body := text.take (text.length - k)
+  match body.mapM b64Val with
+  | none => none
+  | some vs =>
+    let r := vs.length % 4
+    if r == 1 then none
+    else if !(k == 0 || (r == 2 && k ≤ 2) || (r == 3 && k ≤ 1)) then none
+    else b64Groups vs
+
+/-- the payload a `<binary>` text stands for (zlib stays a parameter: `inflate`) -/
+def Payload.ofText (text : List UInt8) (inflate : List UInt8 → Option (List UInt8)) : Payload :=
+  if text.isEmpty then .empty
+  else match b64decode text with
+    | none => .badB64
+    | some w => .data w (inflate w)
 
 inductive Event (ν : Type)
   | start (t : Tag) (id : Option String) (ref : Option String)   -- `<t id=… spectrumRef=…>` (values after XML unescaping)
